@@ -57,7 +57,7 @@ def main():
         inconclusive.append("a recording worker exited with %s" % [r for r in rcs if r])
     # B: fresh processes, different scheduler/GC settings, interleaved non-consensus calls, and a wall clock shifted by
     # ~98 days (binary built with a Go -overlay that adds $JKVERIF_TIME_SHIFT seconds inside time.Now)
-    envB = dict(base_env, GOMAXPROCS="2", GOGC="1")
+    envB = dict(base_env, GOMAXPROCS="2", GOGC="1", TZ="America/New_York")  # a zone with daylight saving; process A runs in the sandbox's zone
     binB = BIN
     clock_shift = False
     go_env = dict(base_env, GOFLAGS="-mod=mod", GOPROXY="off", GOSUMDB="off", GOTOOLCHAIN="local")
@@ -87,7 +87,7 @@ def main():
         if p.returncode != 0:
             inconclusive.append("race build failed: " + p.stdout[-400:])
         else:
-            envC = dict(base_env, GOMAXPROCS="4", GORACE="halt_on_error=0 log_path=%s" % os.path.join(outdir, "race"))
+            envC = dict(base_env, GOMAXPROCS="4", TZ="Australia/Lord_Howe", GORACE="halt_on_error=0 log_path=%s" % os.path.join(outdir, "race"))
             rcs = run_shards([racebin, "c06replay", "-seed", str(SEED + 1000), "-n", str(n), "-dir", outdir, "-suffix", "C", "-interleave", "0.3", "-restart", "0.05", "-crash", "0.02"], envC, os.path.join(outdir, "replayC"), wd)
             if any(rcs):
                 inconclusive.append("a replay-C (race) worker exited with %s" % [r for r in rcs if r])
@@ -189,7 +189,7 @@ def main():
             "evaluations": evaluations,
             "distinct_nontrivial": len(nontriv),
             "rule": "history = one generated workload (dedicated generator X06 maximising provers / gauges / access-map ids / form shuffles per block, plus the generators of every other property except C11 (its contract family calls the wasm plug-in boundary directly, outside ABCI) and C20 in record-only mode) recorded as genesis + headers + signed tx bytes; "
-                    "evaluation = one re-execution in an independent OS process (B: GOMAXPROCS=2, GOGC=1, wall clock shifted by +98 days through a time.Now overlay, serialised CheckTx/Recheck/Query/Simulate calls interleaved with probability 0.4 between consensus calls, the recorded simulate-only transactions (feed update + purchase in one transaction, never delivered) executed, with probability 0.12 per Commit the node restarted (a new application instance opened on the same database), and with probability 0.03 per in-block call the node crashed, i.e. the open block was lost and executed again from BeginBlock by a new instance; thorough adds C: race-detector build) compared step by step with process A on AppHash, tx code/codespace/gas/data and the ordered event lists of BeginBlock/DeliverTx/EndBlock; "
+                    "evaluation = one re-execution in an independent OS process (B: GOMAXPROCS=2, GOGC=1, wall clock shifted by +98 days through a time.Now overlay, local time zone America/New_York (process C: Australia/Lord_Howe), serialised CheckTx/Recheck/Query/Simulate calls interleaved with probability 0.4 between consensus calls, the recorded simulate-only transactions (feed update + purchase in one transaction, never delivered) executed, with probability 0.12 per Commit the node restarted (a new application instance opened on the same database), and with probability 0.03 per in-block call the node crashed, i.e. the open block was lost and executed again from BeginBlock by a new instance; thorough adds C: race-detector build) compared step by step with process A on AppHash, tx code/codespace/gas/data and the ordered event lists of BeginBlock/DeliverTx/EndBlock; "
                     "non-trivial = distinct (source, message-type set) histories that paid >=3 provers in one reward block or used >=6 message types",
             "samples": samples or [{"note": "none"}],
             "histories": n,
